@@ -229,6 +229,7 @@ def run(tier):
     handshake_state_reset(chk)
     from . import c19
     c19.close_order(chk)
+    c19.close_notify_remembered(chk)
     from .. import oblig as _ob2
     _ob2.run_obligations(chk, c19.reneg_declined_obligations())
     # the I/O transition table (shared with C01): a dropped transition leaves the engine open with nothing on offer
